@@ -9,7 +9,7 @@ import ast
 from typing import Dict, List, Optional, Tuple
 
 from . import core
-from .strshape import (ConstStr, Evaluator, IntV, ParsedV, StrV, TextV, Top)
+from .strshape import (ConstStr, Evaluator, IntV, ParsedV, Raises, StrV, StructV, TextV, Top, TupleResult)
 
 HEX = "a5/core/hex.py"
 U64 = IntV(0, 2 ** 64 - 1)
@@ -134,7 +134,7 @@ class Module:
                     self.consts[tg.id] = RegexV(v.args[0].value, flags, core.src(v))
                 else:
                     val = Evaluator({}, self.consts).eval(v)
-                    if isinstance(val, (IntV, ConstStr)):
+                    if isinstance(val, (IntV, ConstStr, StructV)):
                         self.consts[tg.id] = val
 
     def store(self, name: str, v) -> None:
@@ -252,7 +252,10 @@ class Walker:
                 for p in paths:
                     v = self.eval(st.value, p.env)
                     for tgt in tgts:
-                        if isinstance(tgt, ast.Name):
+                        if isinstance(tgt, (ast.Tuple, ast.List)) and len(tgt.elts) == 1 and isinstance(tgt.elts[0], ast.Name) \
+                                and isinstance(v, (TupleResult, Raises)):
+                            p.env[tgt.elts[0].id] = v.item if isinstance(v, TupleResult) else v
+                        elif isinstance(tgt, ast.Name):
                             p.env[tgt.id] = v
                         elif isinstance(tgt, ast.Subscript) and isinstance(tgt.value, ast.Name) and tgt.value.id in self.mod.stores and tgt.value.id not in p.env:
                             self.mod.store(tgt.value.id, v)
@@ -593,6 +596,11 @@ def check_parser(ctx, fn: ast.FunctionDef, rel: str, mod=None):
                 st, why = core.UNDECIDED, "raises on a path whose condition on the text is not modelled"
         elif kind == "unmodelled":
             st, why = core.UNDECIDED, v.why
+        elif isinstance(v, Raises):
+            if p.certain:
+                st, why = core.VIOLATED, f"{v.why}: raises for the valid hexadecimal text {v.witness!r}; parsing must accept upper case and leading zeros"
+            else:
+                st, why = core.UNDECIDED, "on a path whose feasibility is not decided: " + v.why
         else:
             st, why = judge_parser(v)
             if st == core.VIOLATED and not p.certain:
